@@ -255,7 +255,9 @@ func (j *jsonReader) getMap() map[string]any {
 	if j.current != nil {
 		return j.current
 	}
-	j.current = j.value[0].(map[string]any)
+	// A node that is not a JSON object yields a nil map: it then has no tag, no type and no value,
+	// and is rejected by the typed readers instead of panicking here.
+	j.current, _ = j.value[0].(map[string]any)
 	return j.current
 }
 
@@ -270,7 +272,8 @@ func (j *jsonReader) Type() Type {
 		return ty
 	}
 	//TODO: return error
-	panic("Invalid type")
+	// Unknown type name: report the invalid type 0, which no typed reader accepts.
+	return Type(0)
 }
 
 // Tag implements reader.
